@@ -181,7 +181,9 @@ def dataframe_clause(rng):
                    pykoop.KoopmanPipeline(lifting_functions=[('a', pykoop.BilinearInputLiftingFn())]),
                    pykoop.SplitPipeline(lifting_functions_state=[('p', pykoop.PolynomialLiftingFn(order=2))])):
             n += 1
-            cols = (['episode_no'] if ep else []) + ['pos', 'vel', 'force']
+            # names with blanks, brackets and operators are names too: they must come out verbatim
+            cols = (['episode_no'] if ep else []) + [['pos', 'vel', 'force'], ['cart pos', 'pole angle (rad)', 'motor force'],
+                                                      ['x*y', 'a^2', 'f(t)']][n % 3]
             data = rng.normal(size=(6, 3))
             if ep:
                 data = np.hstack((np.array([[0], [0], [0], [1], [1], [1]], dtype=float), data))
@@ -195,7 +197,15 @@ def dataframe_clause(rng):
                                     estimator=repr(lf), column=c, names=names))
             if any(re.search(r'\bx\d|\bu\d', nm) for nm in names):
                 bad.append(dict(what='generated names used although names were given at fit', names=names))
-            df2 = df.rename(columns={'vel': 'speed'})
+            if hasattr(lf, 'get_feature_names_in'):
+                got_in = list(lf.get_feature_names_in())
+                if got_in != cols:
+                    bad.append(dict(what='get_feature_names_in does not return the names given at fit', got=got_in, given=cols))
+            passthrough = [c for c in cols if c in names]
+            if len(passthrough) < (2 if isinstance(lf, pykoop.DelayLiftingFn) else len(cols)) and not isinstance(lf, pykoop.DelayLiftingFn):
+                bad.append(dict(what='a column that passes through the lift unchanged is not labelled with its own name',
+                                estimator=repr(lf), given=cols, names=names))
+            df2 = df.rename(columns={cols[-2]: 'speed'})
             try:
                 lf.transform(df2)
                 bad.append(dict(what='transform accepted a DataFrame with different column names',
